@@ -314,3 +314,33 @@ func vfH_conc_fault() {
 	vfCheckFramesThenPrefix(tc.wire(), !isServer, false, "c10")
 	vfReach("conc-fault-end")
 }
+
+// vfH_wc_blocked (C11): the connection is held for ever by somebody else (the
+// harness takes the write lock and never releases it). WriteControl with a
+// live deadline must come back with a timeout error - it may not wait for the
+// lock without a timer -, the wait it gave up on ends by the deadline, nothing
+// is written and the connection is not poisoned.
+func vfH_wc_blocked() {
+	vfInit()
+	isServer := vfChoose(2) == 1
+	tc := vfNewConn(nil)
+	c := newConn(tc, isServer, 0, 8, nil, nil, nil)
+	if vfChoose(2) == 1 {
+		vfAssert(c.WriteMessage(TextMessage, []byte("m")) == nil, "write-accepted")
+	}
+	nw := tc.nWrites()
+	<-c.mu // held from now on
+	vfTimersFire(true)
+	mt := vfPick([]int{PingMessage, PongMessage, CloseMessage})
+	d := time.Now().Add(time.Duration(1+vfChoose(3)) * time.Millisecond)
+	err := c.WriteControl(mt, []byte("x"), d)
+	by := vfTimerBy(d)
+	vfTimersFire(false)
+	ne, isNet := err.(*netError)
+	vfAssert(isNet && ne.Timeout(), "c11-writecontrol-fails-only-by-timeout")
+	vfAssert(by, "c11-writecontrol-wait-armed-to-end-by-its-deadline")
+	vfAssert(tc.nWrites() == nw, "c11-timed-out-control-writes-nothing")
+	c.mu <- struct{}{} // the holder lets go: the connection is as good as before
+	vfAssert(c.WriteMessage(TextMessage, []byte("after")) == nil, "c11-timeout-does-not-poison")
+	vfReach("wc-blocked-end")
+}
